@@ -617,3 +617,46 @@ func mapWrittenIn(f *ssa.Function, g *ssa.Global) bool {
 	}
 	return false
 }
+
+// errTexts maps the message text of package-level error variables (initialised with a constant string via
+// fmt.Errorf / errors.New) to the integer that stands for that variable.
+func (e *Engine) errTexts() map[string]int {
+	if e.errText != nil {
+		return e.errText
+	}
+	e.errText = map[string]int{}
+	for _, p := range e.prog.AllPackages() {
+		if !strings.HasPrefix(p.Pkg.Path(), "gitlab.com/gomidi/midi/v2") {
+			continue
+		}
+		init := p.Func("init")
+		if init == nil {
+			continue
+		}
+		for _, b := range init.Blocks {
+			for _, ins := range b.Instrs {
+				st, ok := ins.(*ssa.Store)
+				if !ok {
+					continue
+				}
+				g, ok := st.Addr.(*ssa.Global)
+				if !ok || !isErrorType(g.Type().(*types.Pointer).Elem()) {
+					continue
+				}
+				if call, ok := st.Val.(*ssa.Call); ok && len(call.Call.Args) > 0 {
+					if c, ok := call.Call.Args[0].(*ssa.Const); ok && c.Value != nil {
+						txt := strings.Trim(c.Value.ExactString(), "\"")
+						e.errText[txt] = e.errIDs[p.Pkg.Name()+"."+g.Name()]
+						if e.errText[txt] == 0 {
+							t := e.errConst(p.Pkg.Name() + "." + g.Name())
+							fmt.Sscanf(t.S, "%d", new(int))
+							e.errText[txt] = e.errIDs[p.Pkg.Name()+"."+g.Name()]
+						}
+					}
+				}
+			}
+		}
+	}
+	e.errText["govc injected fault"] = 5000
+	return e.errText
+}
